@@ -835,6 +835,37 @@ fn chk_rewrite(mode: &str, ops: &str) -> Result<(), String> {
     }
     Ok(())
 }
+/// an archive opened from a foreign (possibly not deduplicated, unordered, nested) file and an archive rebuilt in
+/// memory with the same tiles and settings must serialise identically
+fn chk_foreign_rewrite(mode: &str, bytes: &[u8]) -> Result<(), String> {
+    let asy = mode == "async";
+    let mut st = reopen(asy, bytes.to_vec(), FULL)?;
+    let tok = hdr_tok(&st);
+    let f: Vec<&str> = tok[1..].split(':').collect();
+    let mut ids: Vec<u64> = match &st {
+        St::S(p) => p.tile_ids().into_iter().copied().collect(),
+        St::A(p) => p.tile_ids().into_iter().copied().collect(),
+    };
+    ids.sort_unstable();
+    let mut ops: Vec<String> = vec![
+        format!("h:{}:{}:{}:{}:{}:{}", f[0], f[1], f[3], f[4], f[5], f[6..12].join(":")),
+        format!("c:{}", ["unknown", "none", "gzip", "brotli", "zstd"][unhex_u64(f[2]) as usize % 5]),
+        format!("m:{}", f[12]),
+    ];
+    for id in ids.iter().rev() {
+        match get_by_id(&mut st, *id) {
+            Ok(Ok(Some(b))) => ops.push(format!("a:{id:x}:{}", hex_bytes(&b))),
+            _ => return Err(format!("harness: tile {id} of the foreign archive is not readable")),
+        }
+    }
+    let x = write_bytes(st)?;
+    let y = run_to_bytes(mode, &ops.join(";"))?;
+    if x != y {
+        let pos = x.iter().zip(y.iter()).position(|(p, q)| p != q).unwrap_or(x.len().min(y.len()));
+        return Err(format!("a reader-backed archive and an in-memory archive with the same content serialise differently ({} vs {} bytes, first difference at {pos})", x.len(), y.len()));
+    }
+    Ok(())
+}
 fn chk_xproc(mode: &str, ops: &str) -> Result<(), String> {
     // two fresh OS processes (differently seeded std hash maps) must produce the same bytes
     let exe = std::env::current_exe().map_err(|e| e.to_string())?;
@@ -1279,6 +1310,25 @@ pub fn gen(prop: &str, rng: &mut Rng, quick: bool, st: &mut Stats) -> Option<Vec
                 }
                 st.bump("history_pairs");
             }
+            // reader-backed (foreign: unordered, separately stored duplicates, nested leaves) vs rebuilt in memory
+            for k in 0..(if quick { 16 } else { 120 }) {
+                let mut o = foreign_opts(rng, k + 2, true);
+                o.n = o.n.min(120);
+                o.unordered = k % 3 != 2;
+                let f = gen_foreign(rng, &o, st);
+                c.push(format!("chk_foreign_rewrite {} {}", if k % 2 == 0 { "sync" } else { "async" }, hex_bytes(&f.bytes)));
+                st.bump("foreign_vs_rebuilt");
+            }
+            // the bytes do not depend on where in the stream they are written (root directory close to its limit,
+            // and positions beyond 16 KiB)
+            for (k, (n, p)) in [(4063usize, 64u64), (4064, 1), (4063, 20_000), (30, 16_384), (30, 70_000), (0, 16_300)].iter().enumerate() {
+                let mut ops = vec!["c:none".to_string()];
+                for t in 0..*n {
+                    ops.push(format!("a:{:x}:{:02x}{:02x}", 2 * t, t % 251, t / 251));
+                }
+                c.push(format!("chk_startpos {} {p:x} - {}", if k % 2 == 0 { "sync" } else { "async" }, ops.join(";")));
+                st.bump("position_independence");
+            }
             // archives with leaf directories
             let ops = seeded_spill_ops(rng.next(), 4400, Compression::None);
             c.push(format!("chk_rewrite sync {ops}"));
@@ -1300,6 +1350,10 @@ pub fn run_chk(toks: &[&str]) -> Option<String> {
         ["chk_roundtrip_spill", w, r, seed, n, comp] => {
             let ops = seeded_spill_ops(unhex_u64(seed), unhex_u64(n) as usize, parse_comp(comp));
             guard_chk(|| chk_roundtrip(w, r, &ops))
+        }
+        ["chk_foreign_rewrite", mode, b] => {
+            let b = unhex_bytes(b);
+            guard_chk(|| chk_foreign_rewrite(mode, &b))
         }
         ["chk_valid", w, ops] => guard_chk(|| chk_valid(w, ops)),
         ["chk_valid_seeded", w, seed, n, big] => {
